@@ -100,7 +100,11 @@ static uint32_t serial0; static uint32_t newblocks; static uint64_t newbytes;
 static void count_new(void *p, size_t size, uint32_t serial, void *arg) { (void)p; (void)arg; if (serial >= serial0) { newblocks++; newbytes += size; } }
 
 static uint64_t max_live_bytes, max_live_blocks;
-static int nodes19(void) { int n = (int)vf_live_blocks() - (M.first_frame_seen ? 1 : 0) - M.icon_cached; return n < 0 ? 0 : n; }
+/* the constant per-interface record, measured (a Reset as the very first frame of a fresh responder), not assumed */
+static uint32_t base_blocks; static uint64_t base_bytes;
+#define RETAIN_BOUND (262144u + W.host.icon_size)     /* generous: 9x what a 1024-entry list needs; growth beyond it is unbounded growth */
+static void measure_baseline(void) { vf_world_reset(); pev e = ev_reset(0, ST_M1); vf_trace_clear(); drv_linux(&e, 0); base_blocks = vf_live_blocks(); base_bytes = vf_live_bytes(); vf_world_reset(); }
+static int nodes19(void) { int n = (int)vf_live_blocks() - (M.first_frame_seen ? (int)base_blocks : 0) - M.icon_cached; return n < 0 ? 0 : n; }
 
 static void apply(int ev) {
     pev q; int is_query = 0; int allowed_retain = 0;
@@ -133,17 +137,17 @@ static void apply(int ev) {
         vf_violation("observation-answered", "%s made the responder transmit", ENAME[ev]);
     if (mode == 19) {
         newblocks = 0; newbytes = 0; vf_each_live(count_new, NULL);
-        uint32_t allow = (uint32_t)allowed_retain + (M.first_frame_seen ? 0u : 1u);
+        uint32_t allow = (uint32_t)allowed_retain + (M.first_frame_seen ? 0u : base_blocks);
         if (newblocks > allow) {
             char sig[96]; snprintf(sig, sizeof sig, "handler-retains-buffer:%s", ENAME[ev]);
             vf_violation(sig, "%s: %u block(s) (%llu bytes) allocated while handling the frame are still live afterwards; at most %u can belong to the bounded retained state", ENAME[ev], newblocks, (unsigned long long)newbytes, allow);
         }
         if (ev == E_QLT_ICON && newblocks > 0) M.icon_cached = 1;
         if (ev == E_RESET0) M.icon_cached = 0;
-        if (ev == E_RESET0 && vf_live_blocks() > 1)
-            vf_violation("reset-leaves-allocations", "after a topology Reset %u blocks (%llu bytes) remain allocated; only the per-interface record may", vf_live_blocks(), (unsigned long long)vf_live_bytes());
-        if (vf_live_bytes() > 65536 + W.host.icon_size)
-            vf_violation("retained-memory-exceeds-bound", "%llu bytes retained between frames (bound 64 KiB + icon)", (unsigned long long)vf_live_bytes());
+        if (ev == E_RESET0 && (vf_live_blocks() > base_blocks || vf_live_bytes() > base_bytes))
+            vf_violation("reset-leaves-allocations", "after a topology Reset %u blocks (%llu bytes) remain allocated; the per-interface record of a fresh responder is %u block(s), %llu bytes", vf_live_blocks(), (unsigned long long)vf_live_bytes(), base_blocks, (unsigned long long)base_bytes);
+        if (vf_live_bytes() > RETAIN_BOUND)
+            vf_violation("retained-memory-exceeds-bound", "%llu bytes retained between frames and still growing with the history (bound used: 256 KiB + icon)", (unsigned long long)vf_live_bytes());
         if (vf_live_bytes() > max_live_bytes) max_live_bytes = vf_live_bytes();
         if (vf_live_blocks() > max_live_blocks) max_live_blocks = vf_live_blocks();
     }
@@ -162,7 +166,7 @@ static void root_setup(void) { memset(&M, 0, sizeof M); }
 /* ------------------------------------------------------------------ C19 pump
  * Directed long histories: every word of length <= L over a macro alphabet (Flood(n) = n fresh observations,
  * Query, bridged Query, quick Reset, icon request, duplicate, Emit) is repeated R times from several start
- * states; the ledger monitors of apply() (retained bytes <= 64 KiB + icon, Reset residue, per-handler
+ * states; the ledger monitors of apply() (retained bytes <= 256 KiB + icon, Reset residue = the measured per-interface record, per-handler
  * retention) run on every frame.  A history in which retention grows with every repetition crosses the
  * byte bound within a few repetitions. */
 enum { P_FLOOD_BIG, P_FLOOD_SMALL, P_QUERY, P_QUERY_BR, P_RESET1, P_ICON, P_DUP, P_EMIT, P_NMACRO };
@@ -201,8 +205,13 @@ static void run_pump(const e1_cfg *base) {
             pump_n = 0; pump_path[pump_n++] = 1000 + start; for (int i = 0; i < len; i++) pump_path[pump_n++] = word[i]; pump_path[pump_n++] = 100 + Rr;
             e1_manual_path(&pumpcfg, pump_path, pump_n);
             if (start >= 1) { vf_trace_clear(); apply(E_DISC); } if (start >= 2) { vf_trace_clear(); apply(E_QLT_ICON); }
-            uint64_t v0 = vf_violation_events;
-            for (int r = 0; r < Rr && vf_violation_events == v0; r++) for (int i = 0; i < len; i++) { macro(word[i]); frames += word[i] == P_FLOOD_BIG ? 1100 : word[i] == P_FLOOD_SMALL ? 30 : 1; }
+            uint64_t v0 = vf_violation_events; uint64_t prev = 0; int grew = 0;
+            /* Rr repetitions; a history whose retention grew on each of the last three is pumped on (up to 24) so that it crosses the bound */
+            for (int r = 0; r < 24 && vf_violation_events == v0; r++) {
+                if (r >= Rr && grew < 3) break;
+                for (int i = 0; i < len; i++) { macro(word[i]); frames += word[i] == P_FLOOD_BIG ? 1100 : word[i] == P_FLOOD_SMALL ? 30 : 1; }
+                grew = vf_live_bytes() > prev ? grew + 1 : 0; prev = vf_live_bytes();
+            }
             words++;
             uint32_t o[2] = { vf_live_blocks(), (uint32_t)w }; vf_outcome(vf_hash64(o, sizeof o, 6));
             if (vf_live_bytes() > max_live_bytes) max_live_bytes = vf_live_bytes();
@@ -211,7 +220,7 @@ static void run_pump(const e1_cfg *base) {
     }
     R.evaluations = frames; R.transitions = frames; R.states = words; R.exhaustive = 1;
     vf_extra("pump", "%llu cyclic histories (words of length <= %d over %d macro events containing a flood, x %d repetitions, 3 start states), %llu frames; largest retention %llu bytes", (unsigned long long)words, L, P_NMACRO, Rr, (unsigned long long)frames, (unsigned long long)max_live_bytes);
-    vf_sample("start: after Discover ; [Flood(1100 new observations) ; Query] x %d: retained bytes must stay <= 64 KiB + icon on every frame", Rr);
+    vf_sample("start: after Discover ; [Flood(1100 new observations) ; Query] x %d: retained bytes must stay <= 256 KiB + icon on every frame", Rr);
 }
 
 int main(int argc, char **argv) {
@@ -222,6 +231,7 @@ int main(int argc, char **argv) {
     int pump = !strcmp(A.mode, "c19pump");
     vf_world_init(A.mtu, A.wifi, (uint8_t)A.fill);
     klimit = mode != 19 ? 300 : KMAX - 8;
+    measure_baseline();
     if (A.a > 0) klimit = (int)A.a;
     e1_cfg cfg = { .nev = E_NEV, .ev_name = ev_name, .apply = apply, .enabled = enabled, .root_setup = root_setup, .model = &M, .model_size = sizeof M,
                    .deadline_s = A.deadline, .max_depth = mode == 19 ? 1400 : 0, .prune_on_violation = 1 };
